@@ -276,6 +276,18 @@ func c02Ops() []c02Op {
 			return true, nil
 		}})
 	}
+	// the settings form saved again while the link is up (sync stays enabled): the client restarts its connection
+	ops = append(ops, c02Op{name: "sync settings re-saved while connected (disabled=0 again)", do: func(g *c02Rig, st *c02State) (bool, error) {
+		if st.disabled || st.linkDown || st.upAway {
+			return false, nil
+		}
+		p := data.Point{Type: data.PointTypeDisabled, Value: 0, Time: g.tick(), Origin: "ui"}
+		if err := client.SendNodePoints(g.d.Nc, "sync1", data.Points{p}, true); err != nil {
+			return true, err
+		}
+		g.sc.Points("sync1", []data.Point{p})
+		return true, nil
+	}})
 	for _, down := range []bool{true, false} {
 		down := down
 		name := "link restored"
@@ -609,7 +621,7 @@ func TestC02(t *testing.T) {
 				c02Body(t, 3, 1))
 		}
 		r.Explore(mc.Config{Name: fmt.Sprintf("histories-d%d-dev%d", depth, dev), Serial: true, SplitDepth: 2, DevBound: dev, StopAfterViolations: 40,
-			Rule: fmt.Sprintf("two real stores linked by the real SyncClient (period 1 s) after an initial catch-up; all histories of %d operations over 28 (point with an existing identity / with a new key of an existing type, edge point on a shared node and on the second placement of a mirrored node on a shared node at either side, node creation at either side (below the device and below a leaf), node point on a node that is placed twice inside the device tree, delete / undelete at either side, sync disabled = clean outage / re-enabled, link lost abruptly / restored, upstream process restarted, upstream stopped with its clients reconnecting before its store answers / upstream store back, a sync period passes), %d scheduling deviations; then the link is brought up, 5 periods pass, and the device subtrees (deleted nodes included, every point with all fields) must be identical and hold the newest accepted write per identity", depth, dev)},
+			Rule: fmt.Sprintf("two real stores linked by the real SyncClient (period 1 s) after an initial catch-up; all histories of %d operations over 29 (point with an existing identity / with a new key of an existing type, edge point on a shared node and on the second placement of a mirrored node on a shared node at either side, node creation at either side (below the device and below a leaf), node point on a node that is placed twice inside the device tree, delete / undelete at either side, sync disabled = clean outage / re-enabled, sync settings re-saved while the link is up, link lost abruptly / restored, upstream process restarted, upstream stopped with its clients reconnecting before its store answers / upstream store back, a sync period passes), %d scheduling deviations; then the link is brought up, 5 periods pass, and the device subtrees (deleted nodes included, every point with all fields) must be identical and hold the newest accepted write per identity", depth, dev)},
 			c02Body(t, depth, dev))
 		r.Assume("outages: the sync node disabled / re-enabled (clean disconnect) and abrupt loss of the sync client's upstream connection (queued deliveries lost, its publishes buffered and flushed on recovery, Disconnected/Reconnected handlers); an upstream restart = its clients lose the link, the store stops and reopens the same file, the clients reconnect")
 		r.Assume("root edge points of the device node are not compared (the code excludes them from synchronisation)")
